@@ -14,11 +14,11 @@ VARIABLES hk            \* hooks registered when the first status was triggered
 tvars == <<vars, l, hk>>
 
 TInit == /\ method = "GET" /\ status = 0 /\ size = 0 /\ hooks = <<>> /\ log = <<>> /\ hist = <<>>
-         /\ hk = <<>> /\ LInit
+         /\ hk = <<>> /\ flusher = TRUE /\ LInit
 
 TReset == /\ IsEv("reset")
           /\ method' = Tr[l].method /\ status' = 0 /\ size' = 0 /\ hooks' = <<>>
-          /\ log' = <<>> /\ hist' = <<>> /\ hk' = <<>>
+          /\ log' = <<>> /\ hist' = <<>> /\ hk' = <<>> /\ flusher' = flusher
 
 IsPrefix(a, b) == Len(a) <= Len(b) /\ SubSeq(b, 1, Len(a)) = a
 
@@ -41,7 +41,7 @@ TOp == /\ IsEv("op")
           IN /\ hooks' = IF e.o.op = "Before" THEN Append(hooks, e.o.hook) ELSE hooks
              /\ hk' = hk1
              /\ status' = e.status /\ size' = e.size /\ log' = e.log
-             /\ method' = method /\ hist' = hist
+             /\ method' = method /\ hist' = hist /\ flusher' = flusher
              /\ Verdict(IF P_Step(e, hk1) THEN "ok" ELSE "bad")
 TNext == TReset \/ TOp
 TSpec == TInit /\ [][TNext]_tvars
